@@ -7366,7 +7366,10 @@ void SymbolDatabase::setValueType(Token* tok, const ValueType& valuetype, const 
                 return;
             }
 
-            if (vt1->isTypeEqual(vt2)) {
+            // same type: no conversion (isTypeEqual does not compare the signedness). In C the operands
+            // are promoted also when they have the same type.
+            const bool promote = parent->isC() && vt1->isIntegral() && vt1->pointer == 0U && vt1->type < ValueType::Type::INT;
+            if (vt1->isTypeEqual(vt2) && (!vt1->isIntegral() || vt1->sign == vt2->sign) && !promote) {
                 setValueType(parent, *vt1);
                 return;
             }
@@ -7438,7 +7441,7 @@ void SymbolDatabase::setValueType(Token* tok, const ValueType& valuetype, const 
                 vt.sign = ValueType::Sign::UNSIGNED;
         }
         // integer promotion; the result of ++ and -- has the type of the operand
-        if (vt.type < ValueType::Type::INT && !(ternary && vt.type==ValueType::Type::BOOL) && parent->tokType() != Token::eIncDecOp) {
+        if (vt.type < ValueType::Type::INT && !(ternary && vt.type==ValueType::Type::BOOL && !parent->isC()) && parent->tokType() != Token::eIncDecOp) {
             vt.type = ValueType::Type::INT;
             vt.sign = ValueType::Sign::SIGNED;
             vt.originalTypeName.clear();
